@@ -17,6 +17,8 @@ mod misc;
 mod targets;
 mod httpx;
 mod keyids;
+mod names;
+mod save;
 
 pub fn kp() -> Ed25519KeyPair {
     let doc = Ed25519KeyPair::generate_pkcs8(&SystemRandom::new()).unwrap();
@@ -123,6 +125,9 @@ async fn main() {
         "target_stream" => targets::op_target_stream(sc).await,
         "http_script" => httpx::op_http_script(sc).await,
         "keyids" => keyids::op_keyids(sc),
+        "save_targets" => save::op_save_targets(sc).await,
+        "filenames" => names::op_filenames(sc),
+        "cache_roles" => names::op_cache_roles(sc).await,
         _ => json!({"error": format!("unknown op {op}")}),
     };
     println!("{}", out);
